@@ -145,6 +145,7 @@ func (d *Disk) Size() uint64 { return d.base.Size }
 //go:norace
 func (d *Disk) Read(a uint64) []byte {
 	vrt.Yield(vrt.PDiskR)
+	vrt.DiskEvent(false, false, a)
 	return d.read(a)
 }
 
@@ -177,6 +178,7 @@ func (d *Disk) ReadTo(a uint64, b []byte) {
 //go:norace
 func (d *Disk) Write(a uint64, v []byte) {
 	vrt.Yield(vrt.PDiskW)
+	vrt.DiskEvent(true, false, a)
 	d.write(a, v)
 }
 
@@ -200,6 +202,7 @@ func (d *Disk) write(a uint64, v []byte) {
 //go:norace
 func (d *Disk) Barrier() {
 	vrt.Yield(vrt.PDiskW)
+	vrt.DiskEvent(false, true, 0)
 	d.NBarriers++
 	if d.Record {
 		d.Log = append(d.Log, Event{Kind: EvBarrier, Tid: vrt.CurID()})
